@@ -68,6 +68,7 @@ S_byteseq == <<98, 121, 116, 101, 115, 61>>                          \* "bytes="
 S_sha256c == <<115, 104, 97, 50, 53, 54, 58>>                        \* "sha256:"
 MT_octet == <<97, 112, 112, 108, 105, 99, 97, 116, 105, 111, 110, 47, 111, 99, 116, 101, 116, 45, 115, 116, 114, 101, 97, 109>>   \* "application/octet-stream"
 MT_manifest == <<97, 112, 112, 108, 105, 99, 97, 116, 105, 111, 110, 47, 118, 110, 100, 46, 111, 99, 105, 46, 105, 109, 97, 103, 101, 46, 109, 97, 110, 105, 102, 101, 115, 116, 46, 118, 49, 43, 106, 115, 111, 110>>   \* "application/vnd.oci.image.manifest.v1+json"
+MT_json == <<97, 112, 112, 108, 105, 99, 97, 116, 105, 111, 110, 47, 106, 115, 111, 110>>   \* "application/json"
 MT_index == <<97, 112, 112, 108, 105, 99, 97, 116, 105, 111, 110, 47, 118, 110, 100, 46, 111, 99, 105, 46, 105, 109, 97, 103, 101, 46, 105, 110, 100, 101, 120, 46, 118, 49, 43, 106, 115, 111, 110>>   \* "application/vnd.oci.image.index.v1+json"
 
 \* ------------------------------------------------------- sequences, numbers
@@ -78,11 +79,13 @@ IndexOf(s, c) == Ref!IndexOf(s, c)
 
 \* the "/"-separated segments of a path (always at least one), and back
 Split(p) ==
-  LET f[i \in 0..Len(p)] ==
-        IF i = 0 THEN << <<>> >>
-        ELSE IF p[i] = ChSlash THEN Append(f[i - 1], <<>>)
-        ELSE [f[i - 1] EXCEPT ![Len(f[i - 1])] = Append(@, p[i])]
-  IN f[Len(p)]
+  LET n == Len(p)
+      cuts == {i \in 1..n : p[i] = ChSlash}
+      k == Cardinality(cuts)
+      \* pos[j] = the position of the j-th "/" (pos[0] = 0, pos[k + 1] = n + 1)
+      pos == [j \in 0..(k + 1) |-> IF j = 0 THEN 0 ELSE IF j = k + 1 THEN n + 1
+                                  ELSE CHOOSE i \in cuts : Cardinality({x \in cuts : x < i}) = j - 1]
+  IN [j \in 1..(k + 1) |-> SubSeq(p, pos[j - 1] + 1, pos[j] - 1)]
 Join(ss) ==
   LET f[i \in 0..Len(ss)] == IF i = 0 THEN <<>> ELSE IF i = 1 THEN ss[1] ELSE f[i - 1] \o <<ChSlash>> \o ss[i]
   IN f[Len(ss)]
@@ -330,6 +333,9 @@ FreeResp(kind) == [Reject(kind, {}) EXCEPT !.mode = "free"]
 BlobLoc(repo, d) == S_v2s \o repo \o S_blobs \o d
 ManifestLoc(repo, d) == S_v2s \o repo \o S_manifests \o d
 UploadLoc(repo, id) == S_v2s \o repo \o S_uploads \o B64Encode(id)
+\* a writer ID the backend reports can be put in a Location only if the router would accept it
+\* back: not empty, valid UTF-8.  For any other ID the request must fail (not panic).
+IdUsable(id) == id # <<>> /\ Utf8Valid(id)
 Min(a, b) == IF a < b THEN a ELSE b
 
 \* The items a list handler returns: the backend iterator yields sc.items and then, if
@@ -356,6 +362,7 @@ Handle(a, rq, sc, o) ==
       startUpload ==
         LET c == <<[Call("PushBlobChunked", repo) EXCEPT !.a = 0]>> IN
         IF ~ok THEN Failed(k, sc.ans, c, <<>>)
+        ELSE IF ~IdUsable(sc.id) THEN Reject(k, AnyErr)
         ELSE Exact(k, 202, "", "loc" :> H(UploadLoc(repo, sc.id)) @@ "range" :> H(<<48, 45, 48>>) @@ "chunkmin" :> H(Dec(sc.chunk)),
                    0, c, <<Obj("w", 0, 0, <<>>)>>)
       byTag == a.tag # <<>>
@@ -397,6 +404,7 @@ Handle(a, rq, sc, o) ==
     [] k = "UploadInfo" ->
          LET c == <<[Call("PushBlobChunkedResume", repo) EXCEPT !.id = a.id, !.a = -1, !.b = 0]>> IN
          IF ~ok THEN Failed(k, sc.ans, c, <<>>)
+         ELSE IF ~IdUsable(sc.id) THEN Reject(k, AnyErr)
          ELSE Exact(k, 204, "", "loc" :> H(UploadLoc(repo, sc.id)) @@ "range" :> H(RangeStr(0, sc.wsize)), 0, c, <<Obj("w", 0, 0, <<>>)>>)
     [] k \in {"UploadChunk", "CompleteUpload"} ->
          LET cr == ChunkRange(h)
@@ -409,6 +417,7 @@ Handle(a, rq, sc, o) ==
             ELSE IF wfail THEN Failed(k, sc.werr, c, <<Obj("w", 0, 0, <<>>)>>)
             ELSE IF k = "UploadChunk" THEN
                  IF sc.cerr # "ok" THEN Failed(k, sc.cerr, c, <<Obj("w", written, 0, <<>>)>>)
+                 ELSE IF ~IdUsable(sc.id) THEN Reject(k, AnyErr)
                  ELSE Exact(k, 202, "", "loc" :> H(UploadLoc(repo, sc.id)) @@ "range" :> H(RangeStr(0, sc.wsize + written)),
                             0, c, <<Obj("w", written, 0, <<>>)>>)
             ELSE IF sc.merr # "ok" THEN Failed(k, sc.merr, c, <<Obj("w", written, 1, a.dig)>>)
@@ -513,7 +522,7 @@ AllClosed(r, sc) ==
           linkp = [ok, path, last, n], calls = <<call...>>, objs = <<[k, closes, written, commits, cdig]...>>] *)
 Universal(rq, out) ==
   /\ out.status \in 200..299 \cup 400..599
-  /\ out.status >= 400 => out.err.json                                   \* a JSON OCI error body
+  /\ out.status >= 400 => (out.err.json /\ out.hdr["ctype"] = H(MT_json))  \* a JSON OCI error body, declared as JSON
   /\ out.err.code \in StdCodes => out.status = StdStatus[out.err.code]    \* status agrees with code
   /\ (out.hdr["clen"].has /\ rq.m # "HEAD") => out.hdr["clen"].v = Dec(out.nbody)
   /\ \A i \in 1..Len(out.calls) : CallArgsValid(out.calls[i])
